@@ -40,7 +40,8 @@ type FileObs struct {
 }
 
 type History struct {
-	PadBytes int // when > 0 every generated row gets a compressible filler of up to this many bytes
+	CompSeen map[bs.CompressionType]bool // every compression an engine of this history was configured with
+	PadBytes int                         // when > 0 every generated row gets a compressible filler of up to this many bytes
 	Env      *Env
 	TM       tokMode
 	PartMode string
@@ -120,7 +121,7 @@ func genHistConfig(r Rng) (bs.BloomSearchEngineConfig, tokMode, string, []string
 
 func NewHistory(r Rng) *History {
 	cfg, tm, pm, keys := genHistConfig(r)
-	return &History{Env: NewEnv(cfg), TM: tm, PartMode: pm, Keys: keys, Rows: map[int]*StoredRow{}}
+	return &History{Env: NewEnv(cfg), TM: tm, PartMode: pm, Keys: keys, Rows: map[int]*StoredRow{}, CompSeen: map[bs.CompressionType]bool{normComp(cfg.RowDataCompression): true}}
 }
 
 // genHistRow draws a row with partition / minmax fields mixed in.
@@ -222,8 +223,16 @@ func (h *History) Run(r Rng, n int, rep *Report) {
 				rep.Add(Finding{Kind: "disagreement", Check: "history-merge", Detail: "healthy merge failed: " + err.Error(), Replay: h.Ops})
 			}
 		case k < 9:
+			if r.Chance(0.5) {
+				// a later engine over the same stores may be configured differently: blocks written before
+				// keep their own compression, whatever merges copy or rebuild them
+				h.Env.Cfg.RowDataCompression = pick(r, []bs.CompressionType{bs.CompressionNone, bs.CompressionSnappy, bs.CompressionZstd})
+			}
+			if h.CompSeen != nil {
+				h.CompSeen[normComp(h.Env.Cfg.RowDataCompression)] = true
+			}
 			h.Env.Reopen()
-			h.Ops = append(h.Ops, "reopen")
+			h.Ops = append(h.Ops, "reopen compression="+string(h.Env.Cfg.RowDataCompression))
 		default:
 			h.externalFile(r, rep)
 		}
@@ -378,4 +387,11 @@ func idsOf(rows []map[string]any) map[int]int {
 		}
 	}
 	return out
+}
+
+func normComp(c bs.CompressionType) bs.CompressionType {
+	if c == "" {
+		return bs.CompressionNone
+	}
+	return c
 }
